@@ -108,13 +108,13 @@ def make_history(r, force_workers=None):
     return hist
 
 
-def new_aggregator(d, trace_eval=False):
+def new_aggregator(d, trace_eval=False, continue_file=True):
     from panoptica import Panoptica_Aggregator
     from vf import sched
 
     ev = pan.make_evaluator(CFG)
     path = os.path.join(d, "out.tsv")
-    agg = Panoptica_Aggregator(ev, path)
+    agg = Panoptica_Aggregator(ev, path) if continue_file else Panoptica_Aggregator(ev, path, continue_file=False)
     if trace_eval:  # the evaluation between the two critical sections is a scheduling point too
         real = ev.evaluate
 
@@ -376,16 +376,23 @@ def pool_call(agg, evdir, seed, split, pred, refa, name):
     return name
 
 
-def run_processes(ctx, hist, r, split, use_pool, det0):
+def run_processes(ctx, hist, r, split, use_pool, det0, pool_first=False, continue_file=True):
     from vf import sched
 
     d = tempfile.mkdtemp(prefix="c16p_", dir=os.environ.get("VERIF_TMP"))
     evdir = os.path.join(d, "ev")
     os.makedirs(evdir)
     sched.reset("log", split_writes=split)
-    agg, ev, path = new_aggregator(d)
+    pool_obj = None
+    if use_pool and pool_first:
+        # the worker pool exists before the aggregator is constructed (workers forked first)
+        from panoptica.utils import NonDaemonicPool
+
+        sched.T.mode = "off"
+        pool_obj = NonDaemonicPool(3)
+    agg, ev, path = new_aggregator(d, continue_file=continue_file)
     sched.T.mode = "off"
-    feats = {"mode": "pool" if use_pool else "processes", "split_writes": split}
+    feats = {"mode": "pool" if use_pool else "processes", "split_writes": split, "pool_first": pool_first, "continue_file": continue_file}
     det = dict(det0, history=hist, split_writes=split)
     results = []
     ctx.count("evaluations")
@@ -397,7 +404,7 @@ def run_processes(ctx, hist, r, split, use_pool, det0):
         hist = {"pool": [c for calls in hist.values() for c in calls if c[0] == "eval"]}
         det["history"] = hist
         try:
-            with NonDaemonicPool(3) as pool:
+            with (pool_obj or NonDaemonicPool(3)) as pool:
                 res = pool.starmap_async(pool_call, args)
                 res.get(timeout=120)
         except multiprocessing.TimeoutError:
@@ -460,6 +467,9 @@ def run(case, ctx):
     fam, i = case["fam"], case["i"]
     r = gen.rng(ctx.seed, "c16", fam, i)
     det0 = {"family": fam}
+    if fam in ("controlled", "dfs") and not sched.T.locks_traced:
+        ctx.count("C16.controlled_scheduling_unavailable")
+        return
     if fam == "controlled":
         hist = make_history(r)
         # several schedules per history: many short histories, many interleavings each
@@ -495,4 +505,4 @@ def run(case, ctx):
         run_noise_threads(ctx, hist, r, bool(i % 2), det0)
     else:
         hist = make_history(r, force_workers=int(r.integers(2, 4)))
-        run_processes(ctx, hist, r, bool(i % 2), use_pool=(i % 4 == 3), det0=det0)
+        run_processes(ctx, hist, r, bool(i % 2), use_pool=(i % 4 == 3), det0=det0, pool_first=(i % 8 == 7), continue_file=(i % 5 != 4))
